@@ -13,10 +13,11 @@ QUICK_SCALE = 7.5      # the quick tier was enlarged by this factor after MIN_OB
 RULE = ("One real logged-in client asks for a peer connection to a scripted peer. The scenario fixes whether each path "
         "can work: direct in {fast, slow(<10 s), refused, hang(->10 s timeout), reset while sending the init message, "
         "server has no address}, indirect in {peer pierces fast, pierces slowly(<60 s), cannot-connect relayed, silence"
-        "(->60 s timeout), server link down}; x connect mode {race, fallback} x port availability {clear, obfuscated, "
+        "(->60 s timeout), server link down, server link being re-established (the connection object exists but is not open: "
+        "every send to the server fails at once)}; x connect mode {race, fallback} x port availability {clear, obfuscated, "
         "both} x obfuscation preference x type {P,F,D} x cancellation of the request after k loop steps / t seconds x "
         "server answers with / without the optional obfuscated-port fields. "
-        "The mode x direct x indirect grid (60 cells) is enumerated in every run, the rest is seeded. Oracle: result "
+        "The mode x direct x indirect grid (72 cells) is enumerated in every run, the rest is seeded. Oracle: result "
         "== (direct works or indirect works) else PeerConnectionError; the returned connection is initialised and "
         "carries a message each way; 120 virtual seconds later: registry == {returned}, open sockets of the client "
         "== that connection's, no ticket waiter, no cannot-connect waiter, no live connect task. kind=connect-back: "
@@ -28,8 +29,10 @@ ASSUMPTIONS = [
     "server link up and the scripted peer pierces with the right ticket within 60 s",
     "when the request is cancelled only the residue rules are judged",
 ]
-MIN_OBS = {'quick': {'requests': 400, 'usable_checks': 100, 'residue_checks': 400, 'connect_back_judged': 60},
-           'thorough': {'requests': 9000, 'usable_checks': 2500, 'residue_checks': 9000, 'connect_back_judged': 1500}}
+MIN_OBS = {'quick': {'requests': 400, 'usable_checks': 100, 'residue_checks': 400, 'connect_back_judged': 60,
+                     'requests_while_server_reconnecting': 40},
+           'thorough': {'requests': 9000, 'usable_checks': 2500, 'residue_checks': 9000, 'connect_back_judged': 1500,
+                        'requests_while_server_reconnecting': 10000}}
 SHARD_TIMEOUT = {'quick': 900, 'thorough': 7200}
 
 
